@@ -730,6 +730,16 @@ let mon_srv prop case impl =
          | Some g when g = f -> ()
          | _ -> bad "completed-upload-is-not-exactly-the-uploaded-content") last_upload
      | "C09" ->
+       (* the transfer uses what was acknowledged: an accepted upload driven by a conformant client with exactly those values completes *)
+       check_uploads ();
+       List.iter (fun r ->
+         match decoded r with
+         | Some (Wrq (name, _, _)) when starts_with r.sxfer "ul=noack" && List.length r.sdg <= 516 ->
+           let path = join rdir (convert_file_path name) in
+           if validate_file_path path rdir && create_file init path [] <> None && not (is_full_device path)
+              && not (List.exists (fun q -> q != r && (match decoded q with Some (Wrq (n2, _, _)) -> join rdir (convert_file_path n2) = path | _ -> false)) recs)
+           then bad "accepted-upload-with-the-acknowledged-options-was-not-acknowledged-to-the-end"
+         | _ -> ()) recs;
        List.iteri (fun i r ->
          let (h, _) = reply_hex r.sreply in
          match decoded r with
@@ -799,6 +809,23 @@ let mon_srv prop case impl =
      | "C12" ->
        check_downloads ();
        check_uploads ();
+       (* a running upload keeps its file to itself: without --overwrite, a write request of another endpoint for the
+          same path is refused while the first is in flight (accepted and left waiting by its client) *)
+       if not (has_flag flags 'o') && not (has_flag flags 'r') then begin
+         let rel_of name = match kernel_segs (join rdir (convert_file_path name)) with
+           | _ :: rel -> String.concat "/" (List.map string_of_bytes rel) | [] -> "" in
+         let accepted q = q.sreply <> "reply=none" && not (is_refusal (fst (reply_hex q.sreply))) in
+         List.iteri (fun i r ->
+           match decoded r with
+           | Some (Wrq (name, _, _)) when accepted r && List.length r.sdg <= 516 ->
+             let rel = rel_of name in
+             if List.exists (fun (j, q) -> j < i && q.sclient <> r.sclient && q.scont = "-" && q.skind = 'q' && accepted q
+                                            && (match decoded q with Some (Wrq (n2, _, _)) -> rel_of n2 = rel && validate_file_path (join rdir (convert_file_path n2)) rdir | _ -> false)
+                                            && create_file init (join rdir (convert_file_path name)) [] <> None)
+                  (List.mapi (fun j q -> (j, q)) recs)
+             then bad "write-request-for-the-file-of-a-running-upload-accepted-from-another-endpoint"
+           | _ -> ()) recs
+       end;
        (* a well-formed non-request packet from an endpoint that owns no transfer (none started, or all of them over) is
           answered with an ERROR from the listening port *)
        List.iteri (fun i r ->
